@@ -530,11 +530,15 @@ def handleTick : List String → Option String
       let cl ← cl.toNat?
       let (s, r1) ← parseSt r
       let (ik, r2) ← parseIK r1
-      let stmt ← match r2 with
+      let (unwind, r3) ← match r2 with
+        | "u-" :: r => some (none, r)
+        | u :: r => if u.startsWith "u" then (u.drop 1).toString.toNat?.map (fun n => (some n, r)) else none
+        | [] => none
+      let stmt ← match r3 with
         | ["-"] => some none
         | [a, b] => do let a ← a.toNat?; let b ← b.toNat?; pure (some (a, b))
         | _ => none
-      pure (match Tick.tick cl s ik stmt with
+      pure (match Tick.tick cl s ik stmt unwind with
         | .st s' => "st " ++ encSt s'
         | .host c s' => s!"host {c} " ++ encSt s')
   | _ => none
